@@ -11,8 +11,9 @@ MANIFEST = {
     "text": "Theorems (all key lengths, all batch sequences, any hash): the hash of the incrementally maintained trie (insert with "
             "split, delete with leaf lifting, batches with first-occurrence-wins de-duplication, empty value = delete) equals the "
             "LIP-0039 root of the resulting map; two histories whose final maps agree give the same root; empty map gives the empty "
-            "hash. Proofs: the CalculateRoot model on one query is the path recomputation, and that recomputation is sound w.r.t. the map "
-            "under an injective hash (single query; multi-query soundness and completeness are partial, see docs/C10.md). The executable transcription of Verify/CalculateRoot and of Prove's merge is tied to the Go code by "
+            "hash. Proofs: smt.Verify (faithful model of Verify+CalculateRoot) is SOUND for any number of queries under an injective, "
+            "domain-separated hash, end to end against the map: for every (requested key, query) pair a non-empty value is in the map, an "
+            "empty value or a different query key means the requested key is absent; completeness is proved for the canonical proof of one key (rest partial, docs/C10.md). The executable transcription of Verify/CalculateRoot and of Prove's merge is tied to the Go code by "
             "running both on every case: roots after every batch (random / clustered / subtree-crossing keys, key lengths 1,2,4,32 bytes, "
             "re-opened tries), Go proofs must equal model proofs and verify in both, and every tampered proof gets the same verdict "
             "in both and, if accepted, must still state only true claims.",
